@@ -57,6 +57,9 @@ for b in blocks:
     meta["applies_to"] = {"repo_head": head, "git_apply_check": applies, "note": "patches written against an earlier repaired tree were rebased when a later fix: commit touched the same lines (the original is kept as patch.orig.diff where that happened)"}
     if os.path.exists(f"{src}/patch.orig.diff"):
         shutil.copy(f"{src}/patch.orig.diff", dst)
+    neutral = json.load(open("/verif/seeded/NEUTRALISED.json")) if os.path.exists("/verif/seeded/NEUTRALISED.json") else {}
+    if meta["id"] in neutral:
+        meta["neutralised_on_final_tree"] = neutral[meta["id"]]
     json.dump(meta, open(dst + "/meta.json", "w"), indent=1)
     if notes:
         open(dst + "/notes.md", "w").write(notes)
